@@ -227,7 +227,7 @@ LocalVerdict judge_local(const procemu::Result& R, int xml_file_index)
   return v;
 }
 
-long count_lines(const std::string& s, size_t upto) { long n = 1; for (size_t i = 0; i < upto && i < s.size(); i++) if (s[i] == '\n') n++; return n; }
+long count_lines(const std::string& s, size_t upto) { long n = 1; for (size_t i = 0; i < upto && i < s.size(); i++) if (s[i] == '\n' || (s[i] == '\r' && (i + 1 >= s.size() || s[i + 1] != '\n'))) n++; return n; }     // as expat counts
 
 // --------------------------------------------------------------- engine -----
 class IoEngine : public Engine {
